@@ -793,6 +793,21 @@ def check_C13(A: Analysis, tier):
                                     A.p.loc(shr, generic))
     rules.append(rf)
 
+    rg = Rule("C13", "C13.g", "the error-swallowing remover _delete_marked_files is only ever handed `_delete` markers (files "
+              "already renamed away from their address), never a permanent file", floor=4)
+    for m in ALL_MODES:
+        for e in ("delete_object", "delete_metadata", "tag_object", "store_object"):
+            it = A.api(e, m)
+            for ev in it.events:
+                if ev.kind == "REMOVE" and ev.func.qual == Q("_delete_marked_files"):
+                    rg.ob()
+                    rg.inst(f"{e}: {'>'.join(x.split('.')[-1] for x in ev.ctx[-2:])} removes {sorted({c.cls for c in primary(ev.classes[0])})}")
+                    for c in primary(ev.classes[0]):
+                        if c.cls != "MARKER":
+                            rg.fail(site_func(ev), site_text(ev), f"_delete_marked_files, which logs and swallows every removal error, is handed the permanent "
+                                    f"{c!r}: if that removal fails the call still reports success while the file stays stored", site_loc(A, ev))
+    rules.append(rg)
+
     re_ = Rule("C13", "C13.e", "no call completes normally out of a handler that caught a library (I/O) error, "
                "except through a tabled swallower", floor=8)
     for m in ("th",):
